@@ -86,7 +86,7 @@ class ScriptedStream:
 class ScriptedSocket(socket.socket):
     """socket whose recv() follows a queue of events:
     bytes -> handed out in order, never more than the requested count per call;
-    'timeout' -> TimeoutError;  'oserror' -> OSError;  'close' / empty queue -> b"" (peer closed).
+    'timeout' -> TimeoutError;  'oserror' -> OSError;  'close' / empty queue -> b"" (peer closed);  'dead' -> ConnectionResetError now and on every later call.
     Subclasses socket.socket (like the repository's DummySocket) so RTCMReader wraps it."""
 
     def __init__(self, events=()):
@@ -115,6 +115,9 @@ class ScriptedSocket(socket.socket):
         if not self.closed_by_peer and not self.events and self.empty_means == "timeout":
             self.log.append((n, "timeout"))
             raise TimeoutError("scripted timeout (nothing queued)")
+        if getattr(self, "dead", False):
+            self.log.append((n, "oserror"))
+            raise ConnectionResetError(104, "scripted ConnectionResetError (connection is gone)")
         if self.closed_by_peer or not self.events:
             self.log.append((n, "eof"))
             return b""
@@ -123,6 +126,12 @@ class ScriptedSocket(socket.socket):
             self.closed_by_peer = True
             self.log.append((n, "eof"))
             return b""
+        if ev == "dead":
+            # a connection that broke: this and every later recv() fails (reset by peer); for the caller it is over
+            self.closed_by_peer = True
+            self.dead = True
+            self.log.append((n, "oserror"))
+            raise ConnectionResetError(104, "scripted ConnectionResetError (connection is gone)")
         if ev == "timeout":
             self.events.pop(0)
             self.log.append((n, "timeout"))
